@@ -640,7 +640,7 @@ func (s *genState) class(c ctx) ast.Expression {
 	}
 	{
 		// a dash among the members: anywhere when it is written as an escape sequence (it is then a character: repair of
-		// finding D3), plain only as the very first or the very last member or right after a complete range
+		// finding D3), plain only as the very first or the very last member, right after a complete range or next to a class
 		for i := range items {
 			if items[i].Class == "" && (items[i].Lo == '-' || items[i].Hi == '-') {
 				items[i].Esc = true
@@ -650,6 +650,21 @@ func (s *genState) class(c ctx) ast.Expression {
 			// an escaped dash between two single characters: [a\x2dc] is a, '-', c
 			k := r.Intn(len(items) + 1)
 			items = append(items[:k:k], append([]ClassItem{{Lo: '-', Esc: true}}, items[k:]...)...)
+		}
+		if r.Intn(5) == 0 {
+			// ... or next to a Unicode class, which is no range bound: [0\pL-9] is 0, the class, '-' and 9; [a-\pLz] is
+			// a, '-', the class and z (repair of finding D36)
+			for i, it := range items {
+				if it.Class != "" {
+					k := i + r.Intn(2) // before or after the class
+					items = append(items[:k:k], append([]ClassItem{{Lo: '-'}}, items[k:]...)...)
+					if r.Intn(2) == 0 {
+						// single characters on both sides, so that a wrong reading has a range to build
+						items = append([]ClassItem{{Lo: '0'}}, append(items, ClassItem{Lo: '9'})...)
+					}
+					break
+				}
+			}
 		}
 		if r.Intn(6) == 0 {
 			if r.Intn(2) == 0 {
